@@ -9,6 +9,8 @@ mod oracle;
 mod paths;
 mod reg;
 mod retain;
+#[cfg(feature = "schema")]
+mod schema;
 mod tables;
 mod wire;
 
@@ -37,6 +39,38 @@ fn main() {
         r.register_type(&m.meta);
         let _p: scale_info::PortableRegistry = r.into();
         return;
+    }
+    if id == "fp-erase" {
+        // stdin: one hex-encoded registry per line; stdout: hex of the registry with every docs list blanked,
+        // decoded and re-encoded by the independent refscale
+        use std::io::BufRead;
+        for line in std::io::stdin().lock().lines() {
+            let line = line.unwrap();
+            let h = line.trim();
+            if h.is_empty() {
+                continue;
+            }
+            let bytes: Vec<u8> = (0..h.len() / 2).map(|i| u8::from_str_radix(&h[2 * i..2 * i + 2], 16).unwrap()).collect();
+            let (mut reg, n) = vcommon::refscale::decode_registry(&bytes).expect("refscale decodes the fingerprint");
+            assert_eq!(n, bytes.len());
+            for t in reg.types.iter_mut() {
+                t.ty.docs.clear();
+                match &mut t.ty.type_def {
+                    scale_info::TypeDef::Composite(c) => c.fields.iter_mut().for_each(|f| f.docs.clear()),
+                    scale_info::TypeDef::Variant(v) => v.variants.iter_mut().for_each(|x| {
+                        x.docs.clear();
+                        x.fields.iter_mut().for_each(|f| f.docs.clear())
+                    }),
+                    _ => {}
+                }
+            }
+            println!("{}", wire::hex(&vcommon::refscale::encode_registry(&reg)));
+        }
+        return;
+    }
+    #[cfg(feature = "schema")]
+    if id == "C19-dump" {
+        std::process::exit(schema::dump(args[2] == "thorough", &args[3]));
     }
     if id == "C14-child" {
         let a = |i: usize| args[i].parse::<u64>().unwrap();
